@@ -21,7 +21,7 @@ import time
 
 VERIF = os.path.dirname(os.path.abspath(__file__))
 REPO = os.environ.get("TETL_REPO", "/repo")
-BUILD = os.path.join(VERIF, "build")
+BUILD = os.environ.get("MC_BUILD_DIR") or os.path.join(VERIF, "build")  # MC_BUILD_DIR: private build/output dir (tools/try_patch.sh)
 NPROC = os.cpu_count() or 4
 
 BASE_FLAGS = ["-I" + os.path.join(REPO, "include"), "-I" + os.path.join(VERIF, "mc"),
